@@ -2,25 +2,25 @@
 (* Behaviour generator: PaymentStore + the history of calls, dumped as one   *)
 (* NDJSON schedule per simulated behaviour (only the calls and their         *)
 (* arguments - the answers are what the executor records from the real code).*)
-(* The menu of Register descriptors per state is a random pair (one that     *)
-(* fits an MPP payment and one arbitrary) to keep the fan-out small; attempt *)
+(* The menu of Register routes per state is a random pair - one that the     *)
+(* payment's in-flight shards admit (drawn from the whole universe of route  *)
+(* shapes, so second and third shards of every shape are generated) and one  *)
+(* arbitrary - to keep the fan-out small; attempt                            *)
 (* ids registered under the OTHER payment are offered to Settle/FailAttempt  *)
 (* like any other id, so histories of the F2 shape are generated.            *)
 EXTENDS PaymentStore, Json
 CONSTANTS MaxLen
 VARIABLE hist
 
-GenDescs == {D("single", 0, 0, Value), D("single", 0, 0, 1)}
-            \cup {D("mpp", 1, Value, a) : a \in 1..(Value + 1)}
-            \cup {D("mpp", 2, Value, 1), D("mpp", 1, Value + 1, 1), D("mpp", 2, Value, Value)}
-            \cup {D("blind", 0, Value, a) : a \in 1..Value}
-            \cup {D("blind", 0, Value + 1, 1), D("blind", 0, 0, 1)}
+GenDescs == RouteUniverse
 GenReasons == {0, 1}
-Fitting == {D("mpp", 1, Value, a) : a \in 1..Value} \cup {D("single", 0, 0, Value)}
+\* routes that payment p admits now (none: any route)
+Fits(p) == {d \in GenDescs : ~Mismatch(p, d) /\ ~ValMismatch(d) /\ Sent(p) + RAmt(d) <= Value}
+Fitting(p) == IF Fits(p) = {} THEN GenDescs ELSE Fits(p)
 
-Ev(a, h, id, d, fo, fa, rs) == [a |-> a, h |-> h, id |-> id, kind |-> d.kind, addr |-> d.addr, tot |-> d.tot,
-                                amt |-> d.amt, fo |-> fo, fa |-> fa, rs |-> rs]
-NoD == D("", 0, 0, 0)
+Ev(a, h, id, d, fo, fa, rs) == [a |-> a, h |-> h, id |-> id, shape |-> ShapeName(d), rt |-> d,
+                                fo |-> fo, fa |-> fa, rs |-> rs]
+NoD == NoRoute
 B(x) == IF x THEN 1 ELSE 0
 Rec(e) == hist' = Append(hist, e)
 
@@ -35,13 +35,13 @@ OneHash   == {RandomElement(Hashes)}
 GNext ==
   /\ Len(hist) < MaxLen
   /\ \/ \E h \in Hashes : InitPayment(h) /\ Rec(Ev("Init", h, 0, NoD, 0, 0, 0))
-     \/ \E h \in Hashes, id \in {RandomElement(Ids), RandomElement(Ids)},
-           d \in {RandomElement(Fitting), RandomElement(GenDescs)} :
+     \/ \E h \in Hashes, id \in {RandomElement(Ids), RandomElement(Ids)} :
+        \E d \in {RandomElement(Fitting(payments[h])), RandomElement(GenDescs)} :
           /\ Alive(h)
           /\ Register(h, id, d) \/ RegisterOverwrite(h, id, d)
           /\ Rec(Ev("Register", h, id, d, 0, 0, 0))
      \* extra weight for the rare shape "one shard settled, another still in flight, register more"
-     \/ \E h \in Hashes, id \in Ids, d \in {RandomElement(Fitting)} :
+     \/ \E h \in Hashes, id \in Ids : \E d \in {RandomElement(Fitting(payments[h]))} :
           /\ HasSettled(payments[h]) /\ HasInflight(payments[h])
           /\ Register(h, id, d)
           /\ Rec(Ev("Register", h, id, d, 0, 0, 0))
